@@ -361,7 +361,9 @@ def same_ast(a, b):
                 return la is None and lb is None
             return la[:3] == lb[:3]
         if a and a[0] == "lit" and b and b[0] == "lit":
-            return a[:3] == b[:3] and type(a[2]) is type(b[2])  # the spelling of a literal is not part of the tree
+            if a[1] == "str" and a[3] is not None and b[3] is not None and a[3] != b[3]:
+                return False  # a string literal keeps its quotes
+            return a[:3] == b[:3] and type(a[2]) is type(b[2])  # the spelling of a number is not part of the tree
         return all(same_ast(x, y) for x, y in zip(a, b))
     return type(a) is type(b) and a == b
 
